@@ -8,6 +8,14 @@ here = os.path.dirname(os.path.dirname(os.path.abspath(__file__)))
 sys.path.insert(0, os.path.join(here, "tools"))
 import manifest_data as md
 
+import glob
+for f in sorted(glob.glob(os.path.join(here, "tools", "manifest.d", "*.json"))):
+    d = json.load(open(f))
+    md.CHECKS.update(d.get("checks", {}))
+    md.ENGINES.extend(d.get("engines", []))
+for _p in md.CHECKS:
+    md.NOT_APPLICABLE.pop(_p, None)
+
 props = [json.loads(l) for l in open(os.path.join(here, "properties.jsonl"))]
 ids = [p["id"] for p in props]
 
